@@ -269,6 +269,7 @@ let () =
            let row_pos = if !kind = "chain" then position_of_cell else position_of_row in
            let d = boundary_matrix () in
            let nn = nat n in
+           if not (check_chain_complex (zp ()) nn d) then emit "FAIL oracle: the generated boundary matrix does not satisfy D.D = 0" else
            (match canonical_bars () with
             | None -> emit "FAIL oracle: certificate failed"
             | Some (exp_bars, _) ->
@@ -288,15 +289,26 @@ let () =
                   let dm = dims.(young) in
                   if List.exists (fun x -> dims.(x) <> dm) pos then bad := Some (what ^ ": cells of different dimensions")
                   else begin
-                    (* zero boundary: D.z = 0 with z the 0/1 vector (Z_2 representatives) *)
-                    let z = dense_of_int_cols n [List.map (fun x -> (x, 1)) pos] in
-                    let zfull = List.init n (fun j -> if j = 0 then List.hd z else List.init n (fun _ -> Z0)) in
-                    (* column 0 of D.zfull^T ... simpler: compute sum of the boundary columns *)
-                    let da = Array.of_list d in
-                    let acc = Array.make n 0 in
-                    List.iter (fun x -> List.iteri (fun r v -> acc.(r) <- modp (acc.(r) + int_of_z v)) da.(x)) pos;
-                    ignore zfull;
-                    if !p = 2 && Array.exists (fun v -> v <> 0) acc then bad := Some (Printf.sprintf "%s: not a cycle (boundary non-zero), youngest cell at position %d" what young)
+                    (* the verified checkers of RepCycle.v decide: for Z_2 the returned cells ARE the chain (0/1 vector);
+                       for Z_p the API returns the support only, so a candidate chain carried by these cells with youngest
+                       cell [young] is computed (rep_witness, untrusted) and then validated like any other *)
+                    let zn = nat young in
+                    let dimsn = List.map nat (Array.to_list dims) in
+                    let verdict =
+                      if !p = 2 then begin
+                        let z = List.init n (fun i -> if List.mem i pos then z_of_int 1 else Z0) in
+                        if check_rep (zp ()) nn d z zn && check_dims (zp ()) nn dimsn z zn then None
+                        else Some "not a cycle (boundary non-zero)"
+                      end else begin
+                        match rep_witness (zp ()) nn d (List.map nat pos) zn with
+                        | None -> Some "not a cycle (no chain carried by these cells has zero boundary and this youngest cell)"
+                        | Some z ->
+                          if check_rep (zp ()) nn d z zn && check_support (zp ()) nn (List.map nat pos) z
+                             && check_dims (zp ()) nn dimsn z zn then None
+                          else Some "not a cycle (oracle: candidate chain rejected by the verified checker)"
+                      end in
+                    if verdict <> None then bad := Some (Printf.sprintf "%s: %s, youngest cell at position %d" what
+                                                          (match verdict with Some s -> s | None -> "") young)
                     else begin
                       births_seen := young :: !births_seen;
                       match bar with
